@@ -3,7 +3,10 @@ package c11
 
 import (
 	"encoding/base64"
+	"errors"
 	"fmt"
+	"github.com/vulcand/oxy/v2/utils"
+	"net"
 	"net/http"
 	"net/http/httptest"
 	"net/url"
@@ -21,7 +24,7 @@ import (
 )
 
 func TestMain(m *testing.M) {
-	vstat.Rule("Codecs: Raw, Hash{salt}, AES{16/24/32-byte key, ttl 0 or whole seconds >= 2}, Fallback(from,to) nested <= 2. Server URLs from a rich generator (userinfo with escapes, query incl. '|' ';' and escapes, escaped path incl. %2F, ';', ',', non-ASCII, port, IPv6 host). Scenario on RoundRobin or Rebalancer with the sticky option under a frozen clock: first request without cookie, the Set-Cookie is read exactly as a client would (http.Response.Cookies -> AddCookie), then follow-ups interleaved with pool changes (re-weight, add/remove other servers, extra NextServer calls), removal and re-adding of S, clock advances across the AES ttl, and bad cookies (truncated, bit-flipped, re-encoded, minted with another key/salt/codec, expired, naming a non-member). Oracle: cookie minted for S and S in the pool (and now < mint+ttl-1s) => the handler sees S; cookie absent/undecodable/expired(> mint+ttl+1s)/naming a non-member => handler status (never an error), req.URL in the pool, and a fresh cookie which the same codec resolves to the server chosen. Non-trivial: URL with userinfo, query or non-default path escaping, or a pool change between two requests of a session, or a bad cookie. Later additions: the client's other cookies may travel in the same Cookie field or in a Cookie field of their own before the affinity cookie; the backend may set cookies of its own; a quarter of the pools have a buffer between balancer and handler.")
+	vstat.Rule("Codecs: Raw, Hash{salt}, AES{16/24/32-byte key, ttl 0 or whole seconds >= 2}, Fallback(from,to) nested <= 2. Server URLs from a rich generator (userinfo with escapes, query incl. '|' ';' and escapes, escaped path incl. %2F, ';', ',', non-ASCII, port, IPv6 host). Scenario on RoundRobin or Rebalancer with the sticky option under a frozen clock: first request without cookie, the Set-Cookie is read exactly as a client would (http.Response.Cookies -> AddCookie), then follow-ups interleaved with pool changes (re-weight, add/remove other servers, extra NextServer calls), removal and re-adding of S, clock advances across the AES ttl, and bad cookies (truncated, bit-flipped, re-encoded, minted with another key/salt/codec, expired, naming a non-member). Oracle: cookie minted for S and S in the pool (and now < mint+ttl-1s) => the handler sees S; cookie absent/undecodable/expired(> mint+ttl+1s)/naming a non-member => handler status (never an error), req.URL in the pool, and a fresh cookie which the same codec resolves to the server chosen. Non-trivial: URL with userinfo, query or non-default path escaping, or a pool change between two requests of a session, or a bad cookie. Later additions: the client's other cookies may travel in the same Cookie field or in a Cookie field of their own before the affinity cookie; the backend may set cookies of its own; a quarter of the pools have a buffer between balancer and handler; an encrypted cookie first presented in the middle of its life and again 1.1 s past its end (must be re-balanced with a fresh cookie; the codec is not asked whether it is expired unless another leaf of the chain shares the minting key).")
 	vstat.Main(m.Run)
 }
 
@@ -62,6 +65,25 @@ type codec struct {
 	name string
 	cv   stickycookie.CookieValue
 	ttl  time.Duration // > 0 only when every accepting path checks expiry
+	// issuer is the key of the encrypted leaf that mints this codec's cookies ("" if none), keys the
+	// keys of all encrypted leaves: when another leaf shares the issuer's key (a chain that moves
+	// between two configurations of one key) that leaf may open the cookie by its own rules
+	issuer string
+	keys   []string
+	// vf is a second codec built from the same parameters: the harness reads cookies with this one, so
+	// that the codec the balancer uses sees a cookie only when a request presents it
+	vf stickycookie.CookieValue
+}
+
+// sharedKey: some other encrypted leaf of the chain has the key of the one that mints the cookies.
+func (c codec) sharedKey() bool {
+	n := 0
+	for _, k := range c.keys {
+		if k == c.issuer && k != "" {
+			n++
+		}
+	}
+	return n > 1
 }
 
 func genKey(t *rapid.T, label string) []byte {
@@ -72,10 +94,10 @@ func genKey(t *rapid.T, label string) []byte {
 func genCodec(t *rapid.T, depth int, label string) codec {
 	switch k := rapid.IntRange(0, 4).Draw(t, label+"_kind"); {
 	case k == 0:
-		return codec{"raw", &stickycookie.RawValue{}, 0}
+		return codec{name: "raw", cv: &stickycookie.RawValue{}, vf: &stickycookie.RawValue{}}
 	case k == 1:
 		salt := rapid.SampledFrom([]string{"", "salt", "other"}).Draw(t, label+"_salt")
-		return codec{"hash(" + salt + ")", &stickycookie.HashValue{Salt: salt}, 0}
+		return codec{name: "hash(" + salt + ")", cv: &stickycookie.HashValue{Salt: salt}, vf: &stickycookie.HashValue{Salt: salt}}
 	case k == 2 || depth == 0:
 		ttl := time.Duration(rapid.SampledFrom([]int{0, 0, 2000, 5000, 60000, 1500, 2500, 3700}).Draw(t, label+"_ttl")) * time.Millisecond
 		key := genKey(t, label)
@@ -83,14 +105,16 @@ func genCodec(t *rapid.T, depth int, label string) codec {
 		if err != nil {
 			t.Fatalf("NewAESValue: %v", err)
 		}
-		return codec{fmt.Sprintf("aes(%d,%v)", len(key), ttl), v, ttl}
+		v2, _ := stickycookie.NewAESValue(key, ttl)
+		return codec{name: fmt.Sprintf("aes(%d,%v)", len(key), ttl), cv: v, ttl: ttl, issuer: string(key), keys: []string{string(key)}, vf: v2}
 	default:
 		from, to := genCodec(t, depth-1, label+"f"), genCodec(t, depth-1, label+"t")
 		v, err := stickycookie.NewFallbackValue(from.cv, to.cv)
 		if err != nil {
 			t.Fatalf("NewFallbackValue: %v", err)
 		}
-		return codec{"fallback(" + from.name + "->" + to.name + ")", v, to.ttl}
+		v2, _ := stickycookie.NewFallbackValue(from.vf, to.vf)
+		return codec{name: "fallback(" + from.name + "->" + to.name + ")", cv: v, vf: v2, ttl: to.ttl, issuer: to.issuer, keys: append(append([]string(nil), from.keys...), to.keys...)}
 	}
 }
 
@@ -109,15 +133,17 @@ func (fmtLogger) Warn(f string, a ...interface{})  { _ = fmt.Sprintf(f, a...) }
 func (fmtLogger) Error(f string, a ...interface{}) { _ = fmt.Sprintf(f, a...) }
 
 type world struct {
-	t       *rapid.T
-	p       pool
-	rr      *roundrobin.RoundRobin
-	cd      codec
-	seen    *url.URL
-	served  int
-	log     []string
-	members map[string]*url.URL
-	direct  map[string]bool // members registered directly on the wrapped balancer
+	failedExchanges int
+	unreachable     bool // the next exchange with a backend fails (reported through utils.DefaultHandler)
+	t               *rapid.T
+	p               pool
+	rr              *roundrobin.RoundRobin
+	cd              codec
+	seen            *url.URL
+	served          int
+	log             []string
+	members         map[string]*url.URL
+	direct          map[string]bool // members registered directly on the wrapped balancer
 	// otherCookies: how the client's unrelated cookies travel (0 none, 1 same Cookie field before
 	// the affinity cookie, 2 a Cookie field of their own BEFORE the field with the affinity cookie)
 	otherCookies int
@@ -200,11 +226,16 @@ func (w *world) fail(f string, a ...any) {
 
 // expectBalanced checks the degraded path: handler status, member chosen, fresh resolvable cookie.
 func (w *world) expectBalanced(sent *http.Cookie, why string) (*url.URL, *http.Cookie) {
+	w.unreachable = rapid.IntRange(0, 5).Draw(w.t, "chosenServerUnreachable") == 0
 	seen, issued, code := w.do(sent)
+	defer func() { w.unreachable = false }()
+	if w.unreachable {
+		w.failedExchanges++
+	}
 	if w.served != 1 || seen == nil {
 		w.fail("request with %s was not forwarded (status %d, handler ran %d times): it must be balanced normally", why, code, w.served)
 	}
-	if code != 299 {
+	if code != 299 && !(w.unreachable && code == http.StatusBadGateway) {
 		w.fail("request with %s answered %d, want the handler's status", why, code)
 	}
 	if _, ok := w.members[key(seen)]; !ok {
@@ -212,14 +243,16 @@ func (w *world) expectBalanced(sent *http.Cookie, why string) (*url.URL, *http.C
 	}
 	if issued == nil {
 		// acceptable only if the cookie sent resolves, by the codec itself, to the server chosen
-		if sent != nil {
-			if u, _ := w.cd.cv.FindURL(sent.Value, w.p.Servers()); u != nil && key(u) == key(seen) {
+		// (not for a cookie the model knows to be past its lifetime - there the codec is not asked - unless
+		// another leaf of the chain shares the minting leaf's key and may open the cookie by its own rules)
+		if sent != nil && (why != "an expired cookie" || w.cd.sharedKey()) {
+			if u, _ := w.cd.vf.FindURL(sent.Value, w.p.Servers()); u != nil && key(u) == key(seen) {
 				return seen, sent
 			}
 		}
 		w.fail("request with %s was balanced to %s but received no fresh cookie", why, seen)
 	}
-	got, err := w.cd.cv.FindURL(issued.Value, w.p.Servers())
+	got, err := w.cd.vf.FindURL(issued.Value, w.p.Servers())
 	if err != nil || got == nil || key(got) != key(seen) {
 		w.fail("request with %s was balanced to %s; the fresh cookie %q resolves to %v (err %v), not to the server chosen", why, seen, issued.Value, got, err)
 	}
@@ -290,6 +323,12 @@ func TestC11_Sessions(t *testing.T) {
 				r.URL.Path = "/internal" + r.URL.Path
 				r.URL.User = nil
 				r.URL.RawQuery = ""
+			}
+			if w.unreachable {
+				// the exchange with the server chosen fails and is reported the way the forwarder does it,
+				// through the library's default error handler: the choice (and its cookie) stands
+				utils.DefaultHandler.ServeHTTP(rw, r, &net.OpError{Op: "dial", Net: "tcp", Err: errors.New("connection refused")})
+				return
 			}
 			if appCookie { // the application behind the balancer has cookies of its own
 				rw.Header().Add("Set-Cookie", "appsession=s-1; Path=/")
@@ -380,9 +419,32 @@ func TestC11_Sessions(t *testing.T) {
 		mint := now
 		w.logf("first->%s cookie=%q", S, cookie.Value)
 		inPool := true
+		presented, lateThenExpired := "", false // the cookie value last presented to the balancer
 		steps := rapid.IntRange(2, 14).Draw(t, "steps")
 		for i := 0; i < steps; i++ {
-			switch rapid.IntRange(0, 12).Draw(t, "op") {
+			switch rapid.IntRange(0, 13).Draw(t, "op") {
+			case 13: // a cookie first presented in the middle of its life, then again just past its end
+				if w.cd.ttl < 2500*time.Millisecond || !inPool || presented == cookie.Value || now >= mint+w.cd.ttl/2 {
+					break
+				}
+				d := mint + w.cd.ttl/2 + time.Microsecond - now
+				clock.Advance(d)
+				now += d
+				w.logf("advance(%v)", d)
+				seen, _, code := w.do(cookie)
+				presented = cookie.Value
+				w.logf("followup->%v", seen)
+				if w.served != 1 || seen == nil || code != 299 || key(seen) != key(S) {
+					w.fail("follow-up carrying the cookie issued for %s (minted +%v, now +%v, first time presented): status %d, routed to %v", S, mint, now, code, seen)
+				}
+				d = mint + w.cd.ttl + 1100*time.Millisecond + time.Microsecond - now
+				clock.Advance(d)
+				now += d
+				w.logf("advance(%v)", d)
+				S, cookie = w.expectBalanced(cookie, "an expired cookie")
+				mint = now
+				w.logf("rebalanced(an expired cookie, first presented late in its life)->%s", S)
+				lateThenExpired = true
 			case 12: // a registration that is refused (invalid weight): the server is not in the pool, a cookie naming it is worth nothing
 				u := genURL(t, "refused")
 				if _, dup := w.members[key(u)]; dup || (knownExcluded("raw-semicolon") && strings.Contains(u.String(), ";")) {
@@ -427,6 +489,7 @@ func TestC11_Sessions(t *testing.T) {
 				switch {
 				case inPool && fresh:
 					seen, _, code := w.do(cookie)
+					presented = cookie.Value
 					w.logf("followup->%v", seen)
 					if w.served != 1 || seen == nil || code != 299 {
 						w.fail("follow-up with the cookie issued for %s: status %d, handler ran %d times", S, code, w.served)
@@ -444,6 +507,7 @@ func TestC11_Sessions(t *testing.T) {
 					w.logf("rebalanced(%s)->%s", why, S)
 				default: // inside the ttl's one-second grey zone: only basic sanity
 					seen, _, code := w.do(cookie)
+					presented = cookie.Value
 					if w.served != 1 || code != 299 || w.members[key(seen)] == nil {
 						w.fail("follow-up in the ttl boundary second: status %d seen %v", code, seen)
 					}
@@ -541,6 +605,14 @@ func TestC11_Sessions(t *testing.T) {
 				poolChange = true
 			case 8: // time
 				d := time.Duration(rapid.SampledFrom([]int64{100, 200, 300, 600, 900, 1500, 3000, 6000, 61000}).Draw(t, "adv"))*time.Millisecond + time.Microsecond
+				if w.cd.ttl > 0 && rapid.Bool().Draw(t, "relativeToTTL") {
+					// steps sized by the cookie's own lifetime: into the middle of it (a cookie first presented late
+					// in its life), or to just past its end
+					d = w.cd.ttl/2 + time.Microsecond
+					if past := mint + w.cd.ttl + 1100*time.Millisecond - now; past > 0 && rapid.Bool().Draw(t, "justPastExpiry") {
+						d = past + time.Microsecond
+					}
+				}
 				clock.Advance(d)
 				now += d
 				w.logf("advance(%v)", d)
@@ -580,7 +652,7 @@ func TestC11_Sessions(t *testing.T) {
 					w.fail("request with a %s cookie %q was routed to %s, outside the pool", kind, bad.Value, seen)
 				}
 				// if the codec itself cannot resolve the bad cookie, a fresh resolvable cookie must come back
-				if u, _ := w.cd.cv.FindURL(bad.Value, w.p.Servers()); u == nil {
+				if u, _ := w.cd.vf.FindURL(bad.Value, w.p.Servers()); u == nil {
 					w.expectBalanced(bad, "a "+kind+" cookie")
 				}
 			}
@@ -593,6 +665,12 @@ func TestC11_Sessions(t *testing.T) {
 		}
 		if poolChange {
 			cl = append(cl, "pool-change-in-session")
+		}
+		if w.failedExchanges > 0 {
+			cl = append(cl, "balanced-request-whose-backend-exchange-fails")
+		}
+		if lateThenExpired {
+			cl = append(cl, "cookie-first-presented-mid-life-then-past-expiry")
 		}
 		if badCookie {
 			cl = append(cl, "bad-cookie")
